@@ -158,6 +158,9 @@ ID : [a-zA-Z_] [a-zA-Z_0-9]* ;
 INT : '0' | [1-9] [0-9]* ;
 WS : [ \\t\\r\\n]+ -> skip ;
 """, ['a = 1;', 'flag; flag x; b=[1,[c,2],[]];', 'a = ;', 'a = 01;', '']),
+    ('labels', """grammar Lab;
+start: op=('add' | 'sub') arg=('x' 'y') EOF ;
+""", ['add x y', 'sub x y', 'add', 'x y', 'add x', 'sub y x']),
     ('frag', """grammar Frag;
 start: (NUM | WORD)+ EOF ;
 NUM : DIGIT+ ('.' DIGIT+)? ;
